@@ -34,7 +34,8 @@ def defs(d):
     return ['-D%s=%s' % (k, v) if v is not None else '-D%s' % k for k, v in sorted(d.items()) if not k.startswith('_')]
 
 def cfgname(d):
-    return ','.join('%s=%s' % (k, v) if v is not None else k for k, v in sorted(d.items()) if not k.startswith('_')) or 'default'
+    n = ','.join('%s=%s' % (k, v) if v is not None else k for k, v in sorted(d.items()) if not k.startswith('_')) or 'default'
+    return n + (' [reuse-addresses]' if d.get('_reuse') else '')     # engine option that changes what the query explores
 
 class Ctx:
     def __init__(self, pid, tier, keep=False, verbose=False):
@@ -159,12 +160,33 @@ def find_native_hang(ctx, h, cfg, tag, seed, tries=6):
         if rc == 'timeout': return vals[:64]
     return None
 
+def build_plain(ctx, h, cfg, tag):
+    """uninstrumented native twin (no sanitizers): real sources, g++ -O1, glibc malloc"""
+    flags = [x for x in NATIVE_FLAGS if not x.startswith('-fsanitize') and not x.startswith('-fno-sanitize')]
+    objs = []
+    for t in h['tus']:
+        o = os.path.join(ctx.work, t + '.plain.o')
+        if not os.path.exists(o):
+            r = sh(['g++'] + flags + ['-c', os.path.join(REPO, 'src', t + '.cc'), '-o', o])
+            if r.returncode: return None
+        objs.append(o)
+    o = os.path.join(ctx.work, 'vs_native.plain.o')
+    if not os.path.exists(o) and sh(['g++'] + flags + ['-c', os.path.join(RT, 'vs_native.cc'), '-o', o]).returncode: return None
+    objs.append(o)
+    exe = os.path.join(ctx.work, '%s_%s.plain' % (h['name'], tag))
+    r = sh(['g++'] + flags + defs(cfg) + [os.path.join(VERIF, h['src'])] + objs + ['-no-pie', '-Wl,--unresolved-symbols=ignore-all', '-Wl,-z,lazy', '-o', exe])
+    return exe if r.returncode == 0 else None
+
 def replay(ctx, h, cfg, tag, inputs, kind):
     """replay a solver counterexample against the native twin built from the real sources"""
     native, err = build_native(ctx, h, cfg, tag + '_replay')
     if native is None: return False, err, None
     f = os.path.join(ctx.work, '%s_%s.replay.in' % (h['name'], tag))
     with open(f, 'w') as fh: fh.write('\n'.join(str(x) for x in inputs) + '\n')
+    if cfg.get('_reuse') and kind in ('property', 'exception'):
+        # a verdict that depends on the allocator handing a released address out again: ASan quarantines freed memory, so the
+        # counterexample is replayed on an uninstrumented build of the real sources with the C library's allocator
+        native = build_plain(ctx, h, cfg, tag) or native
     obs, rc, errtxt = native_obs(native, f, HANG_CAP if kind == 'nontermination' else 120)
     detail = {'native_rc': rc, 'native_obs_tail': (obs or [])[-6:], 'native_stderr_tail': errtxt[-1500:]}
     if kind == 'property': ok = rc == 10
@@ -238,6 +260,7 @@ def main():
             if bc is None: return item, tag, {'rc': 2, 'stdout': 'VSYMEX-INCONCLUSIVE ' + err, 'json': None, 'wall_s': 0}
             tl = int(os.environ.get('VERIF_TIME_LIMIT', h.get('time_limit', {}).get(tier, 600 if tier == 'quick' else 3000)))
             extra = ['--path-limit', str(cfg['_path_limit'])] if cfg.get('_path_limit') else []
+            if cfg.get('_reuse'): extra.append('--reuse-addresses')     # heap model that hands released addresses out again (LIFO per size class)
             if cfg.get('_heavy'):
                 with HEAVY: res = run_engine(ctx, bc, bc + '.json', (int(os.environ['VERIF_TIME_LIMIT']) if os.environ.get('VERIF_TIME_LIMIT') else cfg.get('_time', tl)), extra=extra, mem_gb=cfg.get('_mem_gb'))
             else: res = run_engine(ctx, bc, bc + '.json', (int(os.environ['VERIF_TIME_LIMIT']) if os.environ.get('VERIF_TIME_LIMIT') else cfg.get('_time', tl)), extra=extra, mem_gb=cfg.get('_mem_gb'))
